@@ -120,7 +120,16 @@ class QModuleMixin(ABC):
         if activations is not None and not isinstance(activations, qtype):
             activations = qtypes[activations]
         self.weight_qtype = weights
-        self.weight_group_size = None
+        self.weight_group_size = self._default_weight_group_size()
+        self.activation_qtype = activations
+        self.optimizer = optimizer
+        # The activation scales must have the same dtype as the module, like the quantized activations they produce
+        scale_dtype = None if self.weight is None else self.weight.dtype
+        self.register_buffer("input_scale", torch.ones((), dtype=scale_dtype))
+        self.register_buffer("output_scale", torch.ones((), dtype=scale_dtype))
+
+    def _default_weight_group_size(self):
+        """The group size used to quantize the weights dynamically (it only depends on the weight qtype and shape)"""
         if self.weight_qtype in (qint2, qint4):
             out_features = self.weight.shape[0]
             in_features = self.weight.numel() // out_features
@@ -129,13 +138,8 @@ class QModuleMixin(ABC):
                 while in_features % group_size != 0 and group_size > 32:
                     group_size -= 32
                 if in_features % group_size == 0:
-                    self.weight_group_size = group_size
-        self.activation_qtype = activations
-        self.optimizer = optimizer
-        # The activation scales must have the same dtype as the module, like the quantized activations they produce
-        scale_dtype = None if self.weight is None else self.weight.dtype
-        self.register_buffer("input_scale", torch.ones((), dtype=scale_dtype))
-        self.register_buffer("output_scale", torch.ones((), dtype=scale_dtype))
+                    return group_size
+        return None
 
     def _save_to_state_dict(self, destination, prefix, keep_vars):
         if self.weight is None:
@@ -161,6 +165,8 @@ class QModuleMixin(ABC):
     ):
         weight_qtype = state_dict.pop(prefix + "weight_qtype")
         self.weight_qtype = None if weight_qtype == "none" else qtypes[weight_qtype]
+        # The weight qtype may have changed: update the group size accordingly
+        self.weight_group_size = self._default_weight_group_size()
         activation_qtype = state_dict.pop(prefix + "activation_qtype")
         self.activation_qtype = None if activation_qtype == "none" else qtypes[activation_qtype]
 
